@@ -78,6 +78,14 @@ func c03Profile(variant string) func(c *sim.RunCtx) {
 		}
 		setup := func() setupOut {
 			pp := drawPersistPlan(c.T.Plan, variant, false, true)
+			if wconfigPossible(pp.cfg) && c.T.Plan.Chance(1, 2) {
+				// wired by new_blob_access.go itself: the termination group routine,
+				// the final sync, blockDevice.Sync as data syncer
+				pp.cfg.WConfig = true
+				if !pp.cfg.Hier {
+					pp.cfg.KeyFormat = 0
+				}
+			}
 			return setupOut{pp, &storeModel{cfg: pp.cfg, objs: pp.objs, byTag: map[int]*upload{}}, newMedia(pp.cfg)}
 		}
 		before := gatherMetrics().indexDiscards("sim")
